@@ -188,9 +188,15 @@ class Rewriter(ast.NodeTransformer):
         body = _ExitRewriter(L).rewrite(node.body)
         enter = ast.If(test=sym, body=[assign_back(lcall("enter", tup_vals()))], orelse=[])
         leave = ast.If(test=sym, body=[ast.Expr(value=lcall("leave", tup_vals()))], orelse=[])
+        handler = ast.ExceptHandler(
+            type=name("_vc_LoopReturn"), name="_vc_e",
+            body=[ast.If(test=ast.Compare(left=ast.Attribute(value=name("_vc_e"), attr="loop", ctx=ast.Load()),
+                                          ops=[ast.IsNot()], comparators=[name(L)]),
+                         body=[ast.Raise(exc=None, cause=None)], orelse=[])])
+        guarded = ast.Try(body=[enter] + body + [leave], handlers=[handler], orelse=[], finalbody=[])
         new_for = ast.For(target=node.target,
                           iter=ast.Attribute(value=name(L), attr="it", ctx=ast.Load()),
-                          body=[enter] + body + [leave], orelse=[])
+                          body=[guarded], orelse=[])
         setup = ast.Assign(
             targets=[name(L, True)],
             value=ast.Call(func=name("_vc_loop"),
@@ -198,7 +204,9 @@ class Rewriter(ast.NodeTransformer):
                                  ast.Constant(value=tuple(tracked)), ast.Constant(value=tuple(stored))],
                            keywords=[]))
         fin = ast.If(test=sym, body=[assign_back(lcall("exit", tup_vals()))], orelse=[])
-        out = [setup, new_for, fin]
+        ret = ast.If(test=ast.BoolOp(op=ast.And(), values=[sym, lcall("takes_return")]),
+                     body=[ast.Return(value=lcall("return_value"))], orelse=[])
+        out = [setup, new_for, fin, ret]
         for n in out:
             ast.copy_location(n, node)
             ast.fix_missing_locations(n)
@@ -260,7 +268,16 @@ class _ExitRewriter(ast.NodeTransformer):
         return [self._call("on_continue"), node]
 
     def visit_Return(self, node):
-        return [self._call("on_return"), node]
+        return [self._ret(node), node]
+
+    def _ret(self, node):
+        val = node.value if node.value is not None else ast.Constant(value=None)
+        import copy as _c
+        return ast.If(
+            test=ast.Attribute(value=ast.Name(id=self.L, ctx=ast.Load()), attr="sym", ctx=ast.Load()),
+            body=[ast.Expr(value=ast.Call(
+                func=ast.Attribute(value=ast.Name(id=self.L, ctx=ast.Load()), attr="on_return", ctx=ast.Load()),
+                args=[_c.deepcopy(val)], keywords=[]))], orelse=[])
 
     def rewrite(self, body):
         return self._block(body)
@@ -288,7 +305,7 @@ class _ReturnOnly(ast.NodeTransformer):
         return node
 
     def visit_Return(self, node):
-        return [self.outer._call("on_return"), node]
+        return [self.outer._ret(node), node]
 
 
 def rewrite_module(source, filename, modname):
